@@ -26,10 +26,20 @@ pub fn http_call(addr: &str, r: &RawReq) -> Result<(HttpInfo, Vec<u8>), String> 
         let mut off = 0usize;
         let mut sizes = r.chunks.clone();
         sizes.push(usize::MAX);
+        let mut sent = 0usize;
         for n in sizes {
             if off >= r.body.len() {
                 break;
             }
+            if let Some(k) = r.abort_after {
+                if sent >= k {
+                    // a corrupt chunk header in the middle of the body, then the connection is closed
+                    let _ = s.write_all(b"zz-not-hex\r\n");
+                    let _ = s.flush();
+                    break;
+                }
+            }
+            sent += 1;
             let end = off.saturating_add(n).min(r.body.len());
             if end == off {
                 continue;
@@ -40,7 +50,9 @@ pub fn http_call(addr: &str, r: &RawReq) -> Result<(HttpInfo, Vec<u8>), String> 
             }
             off = end;
         }
-        let _ = s.write_all(b"0\r\n\r\n");
+        if r.abort_after.is_none() {
+            let _ = s.write_all(b"0\r\n\r\n");
+        }
     } else {
         if has_body {
             head.extend_from_slice(format!("Content-Length: {}\r\n", r.body.len()).as_bytes());
@@ -132,7 +144,7 @@ impl SockDriver {
         if let Some(ct) = ct {
             headers.push(("Content-Type".to_string(), ct.as_bytes().to_vec()));
         }
-        RawReq { method: method.to_string(), uri, headers, body, chunks: vec![] }
+        RawReq { method: method.to_string(), uri, headers, body, chunks: vec![], abort_after: None }
     }
     fn go(&mut self, op: &str, r: RawReq) -> (Out, Option<HttpInfo>) {
         let a = self.addr();
